@@ -188,7 +188,7 @@ func c10(args []string) int {
 	for i, sp := range specs {
 		jobs[i] = &histJob{id: 200000 + i + 1, spec: sp}
 	}
-	runAll(jobs, 400)
+	runAll(jobs, 200)
 	// groups (finder only: the shared counter is what the property is about)
 	initEnv()
 	ng := 0
